@@ -283,7 +283,8 @@ def newRegistrationC2SWrapper (m : ZmqMsg) (buildOk : Bool) : Outcome Bool :=
   if m.rrOverridesParams ∧ !m.hasPayload then .panic "nil pointer dereference"
   else .ok buildOk
 
-/-- `parseRegMessage`: number of registrations created, or an error (`none`) -/
+/-- `parseRegMessage`: number of registrations created, or an error (`none`). A family whose
+registration cannot be built is skipped; the message is an error only if a family failed and none was built. -/
 def parseRegMessage (m : ZmqMsg) (enableV4 enableV6 build4Ok build6Ok : Bool) : Outcome (Option Nat) :=
   if !m.unmarshalOk then .ok none
   else
@@ -291,14 +292,13 @@ def parseRegMessage (m : ZmqMsg) (enableV4 enableV6 build4Ok build6Ok : Bool) : 
       if m.v4Support ∧ enableV4 ∧ m.srcIsV4 then (newRegistrationC2SWrapper m build4Ok).bind fun ok => .ok (some ok)
       else .ok none
     reg4.bind fun r4 =>
-    if r4 = some false then .ok none
-    else
       let reg6 : Outcome (Option Bool) :=
         if m.v6Support ∧ enableV6 then (newRegistrationC2SWrapper m build6Ok).bind fun ok => .ok (some ok)
         else .ok none
       reg6.bind fun r6 =>
-      if r6 = some false then .ok none
-      else .ok (some ((if r4 = some true then 1 else 0) + (if r6 = some true then 1 else 0)))
+        let built := (if r4 = some true then 1 else 0) + (if r6 = some true then 1 else 0)
+        if built = 0 ∧ (r4 = some false ∨ r6 = some false) then .ok none
+        else .ok (some built)
 
 /-! ## extracted facts (tie 1) -/
 
